@@ -360,6 +360,17 @@ func vkey(v ssa.Value, depth int) string {
 	case *ssa.BinOp:
 		return "(" + vkey(v.X, depth+1) + v.Op.String() + vkey(v.Y, depth+1) + ")"
 	case *ssa.Alloc:
+		// a by-value parameter spilled to the stack so that its address can be
+		// taken: name it after the parameter
+		if refs := v.Referrers(); refs != nil {
+			for _, r := range *refs {
+				if st, ok := r.(*ssa.Store); ok && st.Addr == v {
+					if pv, isParam := st.Val.(*ssa.Parameter); isParam {
+						return pv.Name()
+					}
+				}
+			}
+		}
 		return "alloc:" + v.Comment + ":" + v.Name()
 	case *ssa.Slice:
 		return vkey(v.X, depth+1) + "[:]"
